@@ -51,6 +51,8 @@ type Prim interface {
 	Transact(c string) *Resp
 	Fail(c, mode string) *Resp
 	AliasProbe(c, t, kind string, item, item2 Item) *Resp
+	Native(c string) *interpreter.Native
+	ActivateNative(c string)
 }
 
 // ClientIDs are the client instances every back end keeps.
